@@ -8,8 +8,11 @@ On break: harness `oracle` evaluates the property's clauses directly on the real
 """
 import os
 
+# property-level modules only: plumbing lives in Lemmas.lean, ProcessLemmas.lean, DeltaProtocolLemmas.lean, NoLoop.lean and
+# the model files, which are built (imported), grepped and audited through their users but not counted as obligations
 THEOREMS = ["IstioModel.C04.Theorems", "IstioModel.C04.ProtocolTheorems", "IstioModel.C04.DeltaTraceTheorems",
-            "IstioModel.C04.ProcessTheorems", "IstioModel.C04.RecvTheorems", "IstioModel.C04.DeltaProtocolTheorems"]
+            "IstioModel.C04.ProcessTheorems", "IstioModel.C04.RecvTheorems", "IstioModel.C04.DeltaProtocolTheorems",
+            "IstioModel.C04.NoLoopTheorems"]
 
 
 def oracle(ctx, stream, case_lines, rep):
